@@ -27,6 +27,51 @@ NOTES = ("Every check: python3 run.py Cxx --tier quick|thorough. Lean theorems a
 NOT_APPLICABLE = {}
 
 CHECKS = {
+    "C08": {
+        "text": "Lean theorems: every run-time check (index, 2/3-index slicing via $subslice, $substring, $makeSlice, $sliceToGoArray, nil-map "
+                "store, integer divide and remainder, send/close, $interfaceIsEqual, $assertType), transcribed from the prelude / the emitted "
+                "rangeCheck text, panics exactly when the Go specification says, for all Int operands (close(nil) and s[low:] refuted with "
+                "witnesses + partial theorems); the $recover depth arithmetic selects exactly functions called directly by the deferred-call "
+                "loop, for every call chain incl. $methodExpr and forwarding wrappers; the emulation ($callDeferred/$panic/$recover + emitted "
+                "try/catch/finally, transcribed statement by statement) equals Go's reference semantics for single-frame goroutine "
+                "functions, and is refuted for four recorded defect classes by proved counterexamples. Tied to the real prelude driven "
+                "under Node by scripted frames of the emitted shape (emulation vs reference on every script), to the prelude checks on "
+                "boundary grids, and to compiled table / scenario / rendered-script programs GopherJS plain+minify vs native Go vs model.",
+        "note": "The general defer_refines (frames with deferred calls, suspension inside deferred calls) is stated, not proved - covered by "
+                "the script and program runs. 12 genuine defects recorded (Goexit swallowed by frames with defer, resurrected replaced panic, "
+                "defer recover(), forwarding-method recover, skipped deferreds after a blocking recover, close(nil), s[lo:], nil *[N]T index, "
+                "evaluation order of panicking stores, unhashable key error type, ...).",
+        "technique": "Lean 4 proof (checks = spec for all operands; depth arithmetic; leaf simulation) + differential correspondence (scripted frames on the real prelude, boundary grids, compiled programs vs native Go)",
+    },
+    "C10": {
+        "text": "Lean theorems: ImportDependencies (transcribed DFS) lists exactly the reachable packages once, each after its imports, the "
+                "runtime closure first and main last, for all acyclic import graphs; the $init protocol as a small-step machine (activation "
+                "stack, self-replacement, resumable items) initialises every reachable package exactly once, after the initialisation of "
+                "all its imports has completed, with no overtaking, under EVERY suspension schedule, and suspension is invisible in the "
+                "trace; zero-initialisers first is harmless; file order, init-call order and import-initialiser order depend only on the "
+                "set of names (reusing C17.sort_perm_invariant); the go:linkname decision table, the implementation split and IsMethod. "
+                "Tied by generated multi-package programs (all DAGs on <= 4 packages in the thorough tier, blocking initialisers, linkname "
+                "edges in both directions) GopherJS vs the model's exact trace vs the allowed-set predicate vs native Go, the real "
+                "ParseGoLinknames on generated files, and the structure of the emitted JS.",
+        "note": "Trusted: go/types InitOrder; the runtime closure is assumed not to suspend (it is called synchronously); the JS save/restore "
+                "chain itself is C02's subject. 2 known findings: an exported bodyless linkname function is uncallable from other packages; "
+                "an implementation package with a dot in its last path element is unreachable.",
+        "technique": "Lean 4 proof (graph induction, small-step machine invariants over all schedules) + differential correspondence (programs, real linkname parser, emitted-JS structure)",
+    },
+    "C11": {
+        "text": "Lean theorems: the two string transcoding loops round-trip every valid UTF-8 string (incl. non-BMP) and every UTF-16 string "
+                "without lone surrogates, with the lone-surrogate / invalid-byte behaviour characterised; type-directed $externalize/"
+                "$internalize round-trip for scalars (ints in range, 64-bit values exactly when representable as doubles, with the exact "
+                "behaviour beyond 2^53, floats by token) and slices nested to any depth through the documented typed-array classes; the "
+                "documented table of js/js.go holds in both directions; the wrapper cache is stable and injective for all histories; the "
+                "callback guard's full statement is refuted with the 3-event witness and the partial (error raised, one surviving entry) "
+                "proved. Tied to the real prelude under Node on generated (type object, value) pairs to depth 4 and to self-checking "
+                "compiled programs using every js.Object accessor, with expectations computed by the model.",
+        "note": "Round trip for string-keyed maps and structs is stated but not proved (differential runs only); time.Time/Date and DOM rows "
+                "cannot be exercised here (package time does not build); $select in the guard model is not transcribed. 4 known findings: "
+                "callback guard leaves a queue entry (send, recv), -0 lost by $internalize, nil map comes back as an empty map.",
+        "technique": "Lean 4 proof (structural induction on types/values, cache invariant) + differential correspondence (Node prelude, compiled programs)",
+    },
     "C07": {
         "text": "Lean theorems: $subslice/$append/$appendSlice/$copySlice/$copyArray (transcribed) equal the Go slice specification for all "
                 "headers, index triples and window pairs (both overlap directions; reallocation iff len+n > cap; writes confined to "
